@@ -1,4 +1,6 @@
 import NmlVerif.Model.FixExternal
+import NmlVerif.Model.FixExternalH
+import NmlVerif.Gen.FixExternal
 import NmlVerif.DrvCommon
 open Lean NmlVerif.FixExternal Drv
 
@@ -70,4 +72,76 @@ def handle (j : Json) : Json :=
   Json.mkObj [("res", res), ("arg", arg), ("input", docJ r.input), ("ret", ret), ("next", Json.num r.next),
     ("writes", Json.arr (r.writes.map (fun (w : Nat) => Json.num w)).toArray)]
 
-def main : IO Unit := loop handle
+/-! second protocol (object-graph heap, `Model/FixExternalH.lean`): a line with a key "heap".
+    in : {"heap": [Node], "doc": id, "overwrite": bool, "files": [[href, [Node]], …]}   Node = {"c": class, "f": [[name, Val], …]}
+         Val = null | "prim text" | object index
+    out: {"res", "arg": Val, "n": size of the final heap, "new": [Node] (objects ≥ size of the input heap),
+          "changed": [[i, Node]] (objects of the input heap that differ), "ret": id | null,
+          "copies": [[cell, src, root, lo, hi]], "doccopy": objects allocated by deepcopy(doc)} -/
+namespace H
+open NmlVerif.PyHeap NmlVerif.FixExternalH
+
+def parseVal : Json → Val
+  | .str s => .prim s
+  | .null => .none
+  | j => match j.getNat? with | .ok n => .ref n | _ => .none
+
+def parseNode (j : Json) : Node :=
+  ⟨getStr j "c", (getArr j "f").toList.filterMap (fun kv =>
+    match kv with
+    | .arr #[.str k, v] => some (k, parseVal v)
+    | _ => none)⟩
+
+def valJ : Val → Json
+  | .none => Json.null
+  | .prim s => Json.str s
+  | .ref i => Json.num i
+
+def nodeJ (nd : Node) : Json :=
+  Json.mkObj [("c", nd.cls), ("f", Json.arr (nd.fields.map (fun kv => Json.arr #[Json.str kv.1, valJ kv.2])).toArray)]
+
+def parseFileH (j : Json) : Option (String × Template) :=
+  match j with
+  | .arr #[.str h, .arr nodes] => some (h, nodes.toList.map parseNode)
+  | _ => none
+
+def mkFilesH (l : List (String × Template)) : NmlVerif.FixExternalH.Files := fun h => (l.find? (fun x => x.1 == h)).map (·.2)
+
+def changed (h0 h1 : Heap) : List Json :=
+  ((List.range h0.length).zip (h0.zip h1)).filterMap (fun (i, a, b) =>
+    if a = b then none else some (Json.arr #[Json.num i, nodeJ b]))
+
+def sameRet : Except NmlVerif.FixExternalH.Err Val → Except NmlVerif.FixExternalH.Err Val → Bool
+  | .ok a, .ok b => a == b
+  | .error a, .error b => a == b
+  | _, _ => false
+
+/-- the program generated from the source (`Gen/FixExternal.lean`) run on the same input gives the same result
+    (proved for all inputs in `Props/C17Gen.lean`; recomputed here on every case) -/
+def genAgrees (files : NmlVerif.FixExternalH.Files) (h0 : Heap) (doc : Val) (ow : Bool) (r : NmlVerif.FixExternalH.Result) : Bool :=
+  let g := NmlVerif.FixIR.runFix (NmlVerif.Gen.FixExternal.fix files) h0 doc ow
+  g.heap == r.heap && sameRet g.ret r.ret && g.copies == r.copies && g.docCopy == r.docCopy
+
+def handleH (j : Json) : Json :=
+  let h0 : Heap := (getArr j "heap").toList.map parseNode
+  let files := mkFilesH ((getArr j "files").toList.filterMap parseFileH)
+  let r := NmlVerif.FixExternalH.fixExternal files h0 (.ref (getNat j "doc")) (getBool j "overwrite")
+  let (res, arg, ret) := match r.ret with
+    | .ok d => ("ok", Json.null, valJ d)
+    | .error (.keyError a) => ("KeyError", valJ a, Json.null)
+    | .error (.includeUnreadable h) => ("SystemExit", valJ h, Json.null)
+    | .error .stuck => ("stuck", Json.null, Json.null)
+  Json.mkObj [("res", res), ("arg", arg), ("ret", ret), ("n", Json.num r.heap.length), ("doccopy", Json.num r.docCopy),
+    ("gen", Json.bool (genAgrees files h0 (.ref (getNat j "doc")) (getBool j "overwrite") r)),
+    ("new", Json.arr ((r.heap.drop h0.length).map nodeJ).toArray),
+    ("changed", Json.arr (changed h0 r.heap).toArray),
+    ("copies", Json.arr (r.copies.map (fun (e : CopyEv) =>
+      Json.arr #[valJ e.cell, valJ e.src, Json.num e.root, Json.num e.lo, Json.num e.hi])).toArray)]
+end H
+
+def dispatch (j : Json) : Json :=
+  match j.getObjVal? "heap" with
+  | .ok _ => H.handleH j
+  | _ => handle j
+
+def main : IO Unit := loop dispatch
